@@ -50,7 +50,10 @@ PKGPATH = {"a": MOD + "/a", "ab": MOD + "/a/b", "abc": MOD + "/a/b/c", "k": MOD 
 PKGNAME = {"a": "apk", "ab": "bpk", "abc": "cpk", "k": "kpk"}
 GO_TOOL_FILES = ("w/go.mod", "w/go.sum")      # inputs the go command may touch; never written by mockery
 ARGV = {"run": [], "showconfig": ["showconfig"], "version": ["version"], "help": ["--help"], "badflag": ["--no-such-flag"],
-        "badcmd": ["frobnicate"]}
+        "badcmd": ["frobnicate"], "init": ["init", MOD + "/a"], "migrate": ["migrate"]}
+V2DOC = {"with-expecter": True, "mockname": "M{{.InterfaceName}}", "outpkg": "mocks",
+         "packages": {MOD + "/a": {"config": {"all": True}}, MOD + "/k": {"interfaces": {"K1": {"config": {"mockname": "Kay"}}}}}}
+MIGRATE_OUT = {"default": [], "rel": ["--outfile", "out/v3.yml"]}
 TEMPLATED = ("filename", "structname", "pkgname", "template-schema")
 
 
@@ -172,6 +175,8 @@ class World:
                 p = Path(absdir(self.R, segs)) / name
                 p.parent.mkdir(parents=True, exist_ok=True)
                 doc = config_doc(self.world, self.R, decoy=(role == "decoy"))
+                if self.world["argv"] == "migrate":            # the file in place is a v2 configuration
+                    doc = V2DOC
                 p.write_text("" if doc is None else json.dumps(doc, indent=1))
         for f in subst(self.world["occ"], self.R):
             Path(f).parent.mkdir(parents=True, exist_ok=True)
@@ -179,6 +184,9 @@ class World:
         self.cwd = absdir(self.R, lay["cwd"])
         self.env = env_of(self.world, self.R)
         self.args = list(ARGV[self.world["argv"]])
+        if self.world["argv"] == "migrate":
+            self.args += MIGRATE_OUT[self.world["mout"]]
+            (Path(self.R) / "w" / "out").mkdir(exist_ok=True)      # the directory --outfile points into exists
         mode = self.world["lay"]["mode"]
         if mode.startswith("flag"):
             self.args = ["--config", lay["param"]] + self.args
@@ -247,6 +255,7 @@ def judge_run(ctx, W, r, before, after):
         bad("exit-status", expected=exp["exit"], got=r.code)
     ch = tree_changes(R, before, after)
     designated = {os.path.relpath(f, R): f for f in exp["files"]}
+    cmdout = {loc_path(k): k for k in exp["cmdout"]}          # init / migrate: the one file they may create (relative to R)
     allowed_dirs = set()
     for rel in designated:
         p = os.path.dirname(rel)
@@ -255,6 +264,8 @@ def judge_run(ctx, W, r, before, after):
             p = os.path.dirname(p)
     for rel, (b, a) in sorted(ch.items()):
         if rel in designated:
+            continue
+        if rel in cmdout and b is None:
             continue
         if rel in allowed_dirs and b is None and a == "DIR":
             continue
@@ -334,6 +345,55 @@ def judge_showconfig(ctx, W, r):
     return out
 
 
+def loc_path(k):
+    """location id of a file init / migrate may create (MigrateContract!OutLocId, "config") -> path relative to R"""
+    if k == "config":
+        return "w/.mockery.yml"
+    if k.startswith("cwd:"):
+        return os.path.normpath(os.path.join("w", k[4:]))
+    raise MachineryError("location id not concretised: " + k)
+
+
+def judge_writer(ctx, W, r, before, after):
+    """init / migrate: exactly the designated file appears iff the contract says the command succeeds, and mockery
+    itself loads it (showconfig)."""
+    import yaml
+    w, exp, R = W.world, W.exp, W.R
+    out = []
+    base = {"tag": w["tag"], "argv": w["argv"], "fault": w["pkgfault"]}
+
+    def bad(kind, **kw):
+        out.append((dict(base, kind=kind), {"case": W.case, "root": R, "args": W.args, "observed": kw, "run": r.brief()}))
+
+    ch = tree_changes(R, before, after)
+    want = {loc_path(k) for k in exp["cmdout"]} if exp["exit"] == "zero" else set()
+    got = {rel for rel, (b, a) in ch.items() if a != "DIR"}
+    if got != want:
+        bad("writer-files", expected=sorted(want), got=sorted(got))
+    if r.trace:
+        bad("non-default-command-ran-the-pipeline", events=len(r.trace))
+    if exp["exit"] == "zero" and r.code == 0 and got == want:
+        target = os.path.join(R, sorted(want)[0])
+        sc = pipetrace.run(ctx, W.cwd, args=["--config", target, "showconfig"], timeout=120)
+        try:
+            doc = yaml.safe_load(sc.out) if sc.code == 0 else None
+        except yaml.YAMLError:
+            doc = None
+        if not isinstance(doc, dict):
+            bad("written-config-not-loadable", exit=sc.code, err=sc.err[-300:])
+        elif w["argv"] == "init":
+            le = exp["initload"]
+            keys = sorted((doc.get("packages") or {}).keys())
+            allv = ((doc["packages"].get(le["keys"][0]) or {}).get("config") or {}).get("all") if keys else None
+            if keys != sorted(le["keys"]) or json.dumps(allv) != le["all"]:
+                bad("init-load", expected=le, got={"keys": keys, "all": allv})
+        else:
+            keys = sorted((doc.get("packages") or {}).keys())
+            if keys != sorted(V2DOC["packages"]) or doc.get("Config", {}).get("structname") != V2DOC["mockname"]:
+                bad("migrate-load", got={"keys": keys, "structname": doc.get("Config", {}).get("structname")})
+    return out
+
+
 def judge_simple(ctx, W, r):
     w, R = W.world, W.R
     out = []
@@ -364,6 +424,8 @@ def replay_case(ctx, item):
     viols = judge_run(ctx, W, r, before, after)
     if W.world["argv"] == "showconfig":
         viols += judge_showconfig(ctx, W, r)
+    elif W.world["argv"] in ("init", "migrate"):
+        viols += judge_writer(ctx, W, r, before, after)
     elif W.world["argv"] != "run":
         viols += judge_simple(ctx, W, r)
     summary = {"cid": cid, "tag": W.world["tag"], "argv": W.world["argv"], "exit": r.code, "expect_exit": W.exp["exit"],
@@ -419,6 +481,9 @@ def vacuity(cases):
     any_(lambda c: len({i["struct"] for i in E(c)["infos"] if i["iface"] == "A1"}) == 2, "two entries with different struct names")
     for argv in ARGV:
         any_(lambda c, a=argv: Wd(c)["argv"] == a, "command " + argv)
+        any_(lambda c, a=argv: Wd(c)["argv"] == a and E(c)["exit"] == ("nonzero" if a.startswith("bad") else "zero"), "command " + argv + " at work")
+    any_(lambda c: Wd(c)["argv"] == "init" and E(c)["exit"] == "nonzero", "init over an existing config file")
+    any_(lambda c: Wd(c)["argv"] == "migrate" and E(c)["exit"] == "nonzero", "migrate without a config file")
     any_(lambda c: Wd(c).get("tagged") and any(i["iface"] == "K2" for i in E(c)["infos"]), "an interface behind a build tag that is mocked")
     any_(lambda c: Wd(c).get("tagged") and Wd(c)["argv"] == "run" and not any(i["iface"] == "K2" for i in E(c)["infos"]), "an interface behind a build tag that is not seen")
     T = lambda c: E(c)["table"]  # noqa: E731
